@@ -257,6 +257,31 @@ def oracle_graph(case):
                         out.append(('after the removal of segment %s collection %s of segment %s differs from the specification'
                                     % (sn, k, s2.name), w, got))
                         return out
+    if not out:
+        # the same collections when every record that mentions segments arrives before the S lines (stand-ins replaced later)
+        late = [l for l in lines if not l.startswith('S\t')] + [l for l in lines if l.startswith('S\t')]
+        r = impl.outcome(lambda: g.Gfa(late, vlevel=1))
+        if r[0] == 'ok':
+            G3 = r[1]
+            for s3 in G3.segments:
+                if s3.virtual:
+                    continue
+                for k in COLLS + ['gaps_L', 'gaps_R', 'fragments']:
+                    got = sorted(str(z) for z in getattr(s3, k, []))
+                    w = sorted(exp.get(s3.name, {}).get(k, []))
+                    if got != w:
+                        out.append(('with the S lines last, collection %s of segment %s differs from the specification' % (k, s3.name), w, got))
+                        return out
+                rn = impl.outcome(lambda: sorted(x.name for x in s3.neighbours))
+                if rn[0] != 'ok':
+                    out.append(('with the S lines last, neighbours of segment %s raises' % s3.name, 'a list of segments', impl.outcome_name(rn)))
+                    return out
+                for d in s3.dovetails:
+                    for side in ('from_segment', 'to_segment'):
+                        x = getattr(d, side, None)
+                        if x is not None and hasattr(x, 'virtual') and (x.virtual or G3.segment(x.name) is not x):
+                            out.append(('with the S lines last, %s of %r is not the segment of the Gfa' % (side, str(d)[:40]), 'the real segment', 'a stand-in'))
+                            return out
     return out
 
 
